@@ -116,8 +116,54 @@ func sitesSeen() string {
 	return strings.Join(s, ",")
 }
 
+// reentrantWriter encodes ANOTHER packet from inside Write before it consumes
+// its argument (a tee / audit writer): legal, and the outer frame must not care.
+type reentrantWriter struct {
+	inner mq.Packet
+	out   []byte
+}
+
+func (w *reentrantWriter) Write(p []byte) (int, error) {
+	if w.inner != nil {
+		in := w.inner
+		w.inner = nil
+		encodeReal(in)
+	}
+	w.out = append(w.out, p...)
+	return len(p), nil
+}
+
+var errC11Writer = fmt.Errorf("writer failed")
+
+type c11FailingWriter struct{ room int }
+
+func (w *c11FailingWriter) Write(p []byte) (int, error) {
+	if len(p) <= w.room {
+		w.room -= len(p)
+		return len(p), nil
+	}
+	n := w.room
+	w.room = 0
+	return n, errC11Writer
+}
+
+// c11LastBytes holds what the most recent "WriteTo(re-entrant writer)" produced.
+var c11LastBytes []byte
+
 func readOnlyOp(c *sim.Ctx, p mq.Packet, k int) string {
+	c11LastBytes = nil
 	switch k {
+	case 6:
+		p.WriteTo(&c11FailingWriter{room: c.T.Int(64)})
+		return "WriteTo(failing writer)"
+	case 7:
+		other := mq.Pub(1, "audit/log", "another packet encoded from inside Write")
+		other.SetPacketID(uint16(1 + c.T.Int(60000)))
+		other.AddUserProp("k", "v")
+		w := &reentrantWriter{inner: other}
+		p.WriteTo(w)
+		c11LastBytes = w.out
+		return "WriteTo(re-entrant writer)"
 	case 0:
 		encodeReal(p)
 		return "WriteTo"
@@ -277,7 +323,7 @@ func runC11(c *sim.Ctx) *sim.Violation {
 	hist := ""
 	for i := 0; i < n; i++ {
 		var op string
-		k := t.Int(6)
+		k := t.Int(8)
 		if pi := sim.Guard(func() { op = readOnlyOp(c, p, k) }); pi != nil {
 			// totality of String/Dump is C19's business
 			c.Count("skipped.read-only-op-panicked")
@@ -285,6 +331,9 @@ func runC11(c *sim.Ctx) *sim.Violation {
 		}
 		hist += op + " "
 		c.Ev("ro-op", int64(k), 0, 0)
+		if c11LastBytes != nil && !bytes.Equal(c11LastBytes, B0) {
+			return sim.V(fmt.Sprintf("C11/%s/nondeterministic-bytes/re-entrant-writer", typ), "after read-only history [%s] a writer that encodes another packet from inside Write received %s\n%s", hist, hexs(c11LastBytes), desc())
+		}
 		if f, wv, gv := ref.FirstDiff(canon0, drv.Observe(p).Canon()); f != "" {
 			return sim.V(fmt.Sprintf("C11/%s/op-%s-changed-accessor/%s", typ, op, f), "after read-only history [%s] accessor %s changed from %q to %q\n%s", hist, f, wv, gv, desc())
 		}
